@@ -154,7 +154,7 @@ let emit_case id main files stddir =
 let rec nat_of_int n = if n <= 0 then Datatypes.O else Datatypes.S (nat_of_int (n - 1))
 let z_to_string z = str_of_bytes (Bytestr.dec_Z z)
 let run_fuel = nat_of_int 20000
-let run_case id main files stddir =
+let run_case_k kind id main files stddir =
   match FrontModel.parse_main (env_of files stddir) (bytes_of_hex main) with
   | FrontModel.POk (body, _, _, _) ->
       (* the flat shell model of the C01/C02 theorems on the model's own script: loops, and the script's functions as the call oracle *)
@@ -169,11 +169,13 @@ let run_case id main files stddir =
           | Some out -> " jout=" ^ hex_of_bytes out ^ (if ProgramPreserve.program_static body then " jstatic=1" else " jstatic=0")
           | None -> "") in
       (match Src.run run_fuel [] [] body with
-       | Src.Ran (out, status, _) -> Printf.printf "run %s transpile=ok out=%s status=%s stderr=%s\n" id (hex_of_bytes out) (z_to_string status) flat
-       | Src.RunUndef -> Printf.printf "run %s undefined\n" id
-       | Src.RunNoFuel -> Printf.printf "run %s nofuel\n" id)
-  | FrontModel.PErr -> Printf.printf "run %s transpile=err\n" id
-  | FrontModel.PFuel -> Printf.printf "run %s transpile=fuel\n" id
+       | Src.Ran (out, status, _) -> Printf.printf "%s %s transpile=ok out=%s status=%s stderr=%s\n" kind id (hex_of_bytes out) (z_to_string status) flat
+       | Src.RunUndef -> Printf.printf "%s %s undefined\n" kind id
+       | Src.RunNoFuel -> Printf.printf "%s %s nofuel\n" kind id)
+  | FrontModel.PErr -> Printf.printf "%s %s transpile=err\n" kind id
+  | FrontModel.PFuel -> Printf.printf "%s %s transpile=fuel\n" kind id
+
+let run_case id main files stddir = run_case_k "run" id main files stddir
 
 (* ---- reference semantics with standard input and an initial file store (orun cases) ---- *)
 let lines_of_text (t : string) : coq_N list list =
@@ -358,6 +360,7 @@ let () =
       | ["parse"; id; main; files; stddir] -> parse_case id main files stddir
       | ["emit"; id; main; files; stddir] -> emit_case id main files stddir
       | ["run"; id; main; files; stddir] -> run_case id main files stddir
+      | ["lrun"; id; main; files; stddir] -> run_case_k "lrun" id main files stddir
       | "strlib" :: id :: fname :: fields -> strlib_case id fname fields
       | ["batrun"; id; main; files; stddir] -> batrun_case id main files stddir
       | ["cmdrun"; id; script] -> cmdrun_case id script
